@@ -737,6 +737,14 @@ class Mini:
         if t == "idx":
             b = self.ev(n[3], env)
             i = self.ev(n[4], env)
+            if isinstance(b, Ref):
+                b = b.get()
+            if isinstance(i, Ref):
+                i = i.get()
+            if isinstance(b, BTree) and isinstance(i, int) and not isinstance(i, bool):
+                if i not in b.d:
+                    raise Panic(f"BTreeMap index: no entry for key {i}")
+                return b.d[i]
             if isinstance(b, list):
                 if isinstance(i, int):
                     if i < 0 or i >= len(b):
@@ -989,6 +997,16 @@ class Mini:
             return ("iter", [])
         if last == "new" and "NonZero" in p and len(args) == 1 and isinstance(args[0], int):
             return ("Some", args[0]) if args[0] != 0 else "None"
+        if last == "new" and "NonZero" in p and len(args) == 1 and isinstance(args[0], (Wide, Tok)):
+            # an abstract integer: non-zero when one of its bytes is known to be non-zero, zero when every byte is the concrete 0
+            sl = args[0].slots if isinstance(args[0], Wide) else [args[0]]
+            if any((isinstance(x, Tok) and x.cls == "nz") or (isinstance(x, int) and x != 0) for x in sl):
+                return ("Some", args[0])
+            if all(isinstance(x, int) and x == 0 for x in sl) or all(isinstance(x, Tok) and x.cls == "z" or x == 0 for x in sl):
+                return "None"
+            raise Unsupported("NonZero::new of a byte pattern that may or may not be zero")
+        if last == "get" and "NonZero" in p and len(args) == 1:
+            return args[0]
         if p == "std::string::String::new" and not args:
             return []  # a String is modelled by its bytes
         if p in ("std::vec::Vec::<T>::with_capacity", "std::vec::Vec::<T>::new"):
@@ -1224,6 +1242,8 @@ class Mini:
                 return (a0 in recv) if nm == "contains" else recv.startswith(a0) if nm == "starts_with" else recv.endswith(a0)
         if nm == "contains" and isinstance(recv, tuple) and recv and recv[0] in ("range", "rangeincl") and len(args) == 1 and all(isinstance(x, int) and not isinstance(x, bool) for x in (recv[1], recv[2], args[0])):
             return recv[1] <= args[0] <= recv[2] if recv[0] == "rangeincl" else recv[1] <= args[0] < recv[2]
+        if nm == "get" and not args and "NonZero" in p:
+            return recv  # NonZero<T>::get: the integer itself
         if nm in ("get", "first", "last") and isinstance(recv, list) and p.startswith(("std::slice::<impl [T]>::", "std::vec::Vec")):
             if nm == "get" and len(args) == 1 and isinstance(args[0], int) and not isinstance(args[0], bool):
                 return ("Some", recv[args[0]]) if 0 <= args[0] < len(recv) else "None"
